@@ -577,7 +577,10 @@ impl Primitive {
     pub fn try_into_numeric_index(&self) -> Result<usize> {
         Ok(match self {
             Primitive::Byte(byte) => *byte as usize,
-            Primitive::BigInt(bigint) => *bigint as usize,
+            // `as usize` would keep the low 64 bits only: B18446744073709551617 is not index 1.
+            Primitive::BigInt(bigint) => usize::try_from(*bigint)
+                .ok()
+                .with_context(|| format!("index {bigint} out of bounds"))?,
             Primitive::Int(int) => *int as usize,
             other => bail!("cannot index with {other}"),
         })
